@@ -55,6 +55,28 @@ def run(rep, tier):
     for js, cname, layout, maxs, units in prep:
         widths.rule(rep, "C06.D2", _inlined_module(js), cname, files=("/src/siv/", "/src/isap/"), inlined=True)
     widths.control(rep, "C06.D2")
+    # "for every key, nonce, ... the output is the specification's" includes calls that overlap in time: the SIV / ISAP
+    # code keeps no mutable object with static storage (a scratch buffer made `static` is shared by all callers)
+    from . import ir as _ir
+    rep.rule("C06.D3", "the SIV / ISAP units define no mutable variable with static storage (results do not depend on other calls in flight)")
+    for js, cname, layout, maxs, units in prep:
+        mm = modes.load_module(js)
+        n = 0
+        for g in mm.globals.values():
+            if g.get("decl"):
+                continue
+            fn = mm.file_of(g.get("file", -1)) or ""
+            if "/src/isap/" not in fn and "/src/siv/" not in fn:
+                continue
+            n += 1
+            if g["constant"] or g["tls"]:
+                rep.instance("C06.D3", 1, {"config": cname, "global": g["name"], "kind": "constant"})
+            else:
+                rep.violation("C06.D3", "static:" + (g.get("srcname") or g["name"]), "%s:%s" % (fn, g.get("line", 0)),
+                              "%s (%d bytes%s) has static storage and is written by the SIV / ISAP code: two calls in flight share it, "
+                              "so the tag or keystream of one depends on the other" % (
+                                  g["name"], g["size"], (", defined inside " + g["infunc"]) if g.get("infunc") else ""), config=cname)
+        rep.instance("C06.D3", 1, {"config": cname, "static_objects_in_siv_isap": n})
     for d in modecheck.run_cases("C06", rid, tier, cases, None):
         rep.merge(d)
     rep.floor_discharged(rid, int(0.9 * len(cases)))
